@@ -87,7 +87,7 @@ def word(prefix='w'):
     return '%sx%dz' % (prefix, _w[0])
 
 
-def gen_doc(rng, leaves=None, depth=2, labels=True):
+def gen_doc(rng, leaves=None, depth=2, labels=True, bad_titles=False):
     """Random sectioned document; returns (source, list of marker words in order, list of labels, refs)."""
     words, labs, refs = [], [], []
     names = ['section', 'subsection', 'subsubsection']
@@ -106,7 +106,8 @@ def gen_doc(rng, leaves=None, depth=2, labels=True):
         for _ in range(rng.randrange(1, 3)):
             t = word('t')
             star = '*' if rng.random() < 0.15 else ''
-            out += '\\%s%s{%s}' % (names[level], star, t)
+            # titles may carry characters that are forbidden in file names
+            out += '\\%s%s{%s%s}' % (names[level], star, t, rng.choice(['', '', ': x', ' a/b', ' q?']) if bad_titles else '')
             words.append(t)
             if labels and rng.random() < 0.7:
                 l = 'lab%d' % len(labs)
